@@ -118,6 +118,7 @@ def run_real(case: dict) -> Optional[dict]:
     pool_desc = [wire.canon_value(ctx, p) for p in pool]
     calls = []
     seen_keys: set = set()
+    stored_out: Dict[Any, Any] = {}
     fails: List[str] = []
     for n, c in enumerate(case["history"]):
         x = pool[c["i"]]
@@ -151,6 +152,7 @@ def run_real(case: dict) -> Optional[dict]:
             elif sets[0][0] is not x or sets[0][1] is not r:
                 fails.append(f"call {n}: miss did not store exactly the (input, result) pair it computed")
             seen_keys.add(k)
+            stored_out[k] = out
         bctx = wire.Ctx()
         bctx.oid = ctx.oid
         bctx.cls_by_id, bctx.cls_desc = ctx.cls_by_id, ctx.cls_desc
@@ -165,7 +167,12 @@ def run_real(case: dict) -> Optional[dict]:
             bout = {"raised": wire.exn_name(e)}
         # equality-keyed store: "what the wrapped validator returns" is determined up to `==` only (an
         # equal but distinct input object gets the stored result, which references the first object)
+        # -- e.g. (Decimal('-0'),) hits the entry of (Decimal('0'),): to a faithful equality-keyed store the
+        # two are the same input, so a hit is compared with what the wrapped validator returned for the
+        # stored representative
         cmpf = props.strip_ids if case["key"] == "typedEq" else (lambda z: z)
+        if hit and case["key"] == "typedEq" and k in stored_out:
+            bout = stored_out[k]
         if cmpf(wire.normalise(bout)) != cmpf(wire.normalise(out)):
             if not (hit and "raised" in bout):
                 fails.append(f"call {n}: cached call returned something else than the wrapped validator does")
